@@ -2,5 +2,6 @@
 \* scaled to 4 and 1; batch_iter_mut! closures of get_power_series / batch_inversion (C14)
 SPECIFICATION Spec
 CONSTANTS MaxN = 16  MinBatches = {1, 4}  Ops = {"pow", "inv"}  GuardEmpty = TRUE  MaxStates = 3000
+CONSTANTS Threads = {1, 2, 3, 4, 5, 6, 7, 8, 9, 10, 11, 12, 13, 14, 15, 16}  PermRule = "pow2"
 INVARIANT Partition NoRace InBounds Final
 CHECK_DEADLOCK FALSE
